@@ -103,7 +103,7 @@ func checkC11(c *Ctx) {
 	c.Rule(O1, "every continuation path reports on the result channel", 4)
 	c.Rule(O2, "API blocks only in a select with a ctx.Done() arm; result channel buffered", 4)
 	c.Rule(O3, "BLS/PS waits report expiry (thresholds in normal form) and callers honour it", 24)
-	c.Rule(O4, "context monitor armed before the waits and signalling under the lock", 4)
+	c.Rule(O4, "context monitor armed before the waits, signalling under the lock; waits park only after a fresh context check", 10)
 	c.Rule(P1, "explicit panics reachable from KeyGen/Sign have a frozen reason", 20)
 	c.Rule(G1, "adapter session loops have a ctx.Done() arm returning an error", 4)
 
@@ -243,6 +243,7 @@ func checkC11(c *Ctx) {
 		d.n1Rule = O3
 		d.ruleWaits(c, O3)
 		d.ruleMonitor(c, O4)
+		d.ruleParkAfterCtxCheck(c, O4)
 		auditPanics(c, P1, d.m, b.pkg, []*ssa.Function{d.keygen, d.m.Func(b.pkg, b.typ, "Sign"), d.m.Func(b.pkg, b.typ, "SetShareData"), d.m.Func(b.pkg, b.typ, "Init")})
 	}
 	// ---------------- G1 / P1 adapters
@@ -326,6 +327,60 @@ func syncErrEdgeSkipper(sl *Slicer, fn *ssa.Function) func(b *ssa.BasicBlock, su
 		}
 	}
 	return func(b *ssa.BasicBlock, succ int) bool { return skip[edge{b, succ}] }
+}
+
+// ruleParkAfterCtxCheck: every Cond.Wait is entered only after the context was found alive since the
+// last wake-up (the monitor signals once; a wake-up that finds nobody parked is lost).
+func (d *dkgModel) ruleParkAfterCtxCheck(c *Ctx, rule string) {
+	m := d.m
+	for _, w := range d.waits {
+		fn := w.fn
+		for _, in := range instrsOf(fn) {
+			wc, ok := in.(*ssa.Call)
+			if !ok || !isCallTo(&wc.Call, "sync", "Cond.Wait") {
+				continue
+			}
+			var check *ssa.Call
+			okFact := boolFact(FactsAt(wc), false, func(v ssa.Value) bool {
+				cl, ok := v.(*ssa.Call)
+				if !ok {
+					return false
+				}
+				cal := staticCallee(&cl.Call)
+				if cal == nil {
+					return false
+				}
+				// a helper that selects on ctx.Done()
+				for _, x := range instrsOf(cal) {
+					if sel, ok := x.(*ssa.Select); ok {
+						for _, st := range sel.States {
+							if dc, ok := strip(st.Chan).(*ssa.Call); ok && dc.Call.IsInvoke() && dc.Call.Method.Name() == "Done" {
+								check = cl
+								return true
+							}
+						}
+					}
+				}
+				return false
+			})
+			// every cycle through the Wait re-evaluates the check
+			okCycle := false
+			if check != nil {
+				okCycle = true
+				for _, s := range wc.Block().Succs {
+					if reachAvoiding(s, wc.Block(), check.Block()) && check.Block() != wc.Block() {
+						okCycle = false
+					}
+				}
+				if check.Block() == wc.Block() && instrIndex(check) > instrIndex(wc) {
+					okCycle = false
+				}
+			}
+			c.Check(okFact && okCycle, rule, FuncName(fn), "park only after the context was found alive", m.Pos(wc.Pos()),
+				"Wait() is dominated by contextTimedOut(ctx) == false, re-evaluated on every cycle",
+				"the wait can park without having checked the context since the last wake-up: the monitor signals only once, so a cancellation that happens just before the goroutine parks is lost and KeyGen blocks for ever on a cancelled context")
+		}
+	}
 }
 
 // ruleMonitor: KeyGen arms the monitor before any wait; the monitor signals under the lock on ctx.Done().
